@@ -26,13 +26,23 @@ THEOREMS = [
     "MCHap.C18.rest_invariant",
     "MCHap.C18.blanket_ratio",
     "MCHap.C18.ped_mh_db",
+    "MCHap.C18.mh_ratio_joint",
     "MCHap.C18.swap_db",
-    "MCHap.C18.swap_same_individual",
+    "MCHap.C18.pair_factor",
+    "MCHap.C18.rest_pair_invariant",
+    "MCHap.C18.pair_blanket_ratio",
+    "MCHap.C18.swap_ratio_joint",
+    "MCHap.C18.ped_swap_db",
     "MCHap.C18.hyper_allele_step",
     "MCHap.C18.unknown_allele_step",
-    "MCHap.C18.trio_allele_balanced",
-    "MCHap.C18.ped_gibbs_is_conditional_partial",
-    "MCHap.C18.gibbs_unbalanced_counterexample",
+    "MCHap.C18.kappa_of_fixed_weights",
+    "MCHap.C18.trio_allele_weighted",
+    "MCHap.C18.trio_allele_exact",
+    "MCHap.C18.ped_gibbs_scaled",
+    "MCHap.C18.ped_gibbs_is_conditional",
+    "MCHap.C18.trio_allele_balanced_old",
+    "MCHap.C18.ped_gibbs_old_weights_balanced",
+    "MCHap.C18.gibbs_old_weights_counterexample",
 ]
 RULE = ("cases: generated pedigrees (founder, clone founder, duo with unknown parent, trio, half-sibs, selfing, two generations, mixed "
         "ploidy 2x x 4x -> 3x, unbalanced tau (1,3)/(3,1)/(1,2), clonal edges) over 2..4 haplotypes, lambda {0,.1,.5} on tau = 2 edges, "
@@ -230,12 +240,15 @@ def run(tier, replay=None):
         "the current state has positive joint probability (states the sampler can be in)",
         "irreducibility / convergence is not claimed; the theorems are detailed balance and conditional exactness",
         "prob_accept of the swap is observed on .py_func (same source as the jitted function) with np.random forced",
-        "Gibbs = exact conditional is a theorem only for tau_p = tau_q on the current tree (gameteWeight = 1, candidate defect F6)",
+        "the Gibbs theorem is stated for the model's own joint (trio function trioPmfCode, the model of trio_log_pmf); its identity with the "
+        "specification-level sum over all gamete pairs (C17.trio_sum_one) is not a theorem but compared exactly by the driver on every case",
+        "well-formedness hypotheses of ped_gibbs_is_conditional (parent genotypes of the right ploidy over the known alleles, tau <= ploidy, "
+        "lambda in [0,1] and non-zero only for tau = 2, no individual its own parent) hold for every pedigree mchap accepts",
     ])
     chk.prove()
     drv = C.Driver(EXE)
     r = C.rng(PROP)
-    n_ped = {"warm": 3, "quick": 110, "thorough": 1100}[tier]
+    n_ped = {"warm": 3, "quick": 400, "thorough": 3000}[tier]
     names = sorted(templates())
 
     def logf_of(P):
@@ -264,6 +277,24 @@ def run(tier, replay=None):
         except (AssertionError, ValueError, ZeroDivisionError):
             return "err", st
         return [float(x) for x in v], st
+
+    def nan_in_allele_pmf(P, st, t):
+        """does gamete_allele_log_pmf return NaN for some (gamete count, parental count) reachable at target t?"""
+        for j in range(2):
+            par = int(P["parents"][t, j]); tau = int(P["tau"][t, j]); lam = float(P["lam"][t, j])
+            if par < 0 or tau == 0 or (lam > 0 and tau != 2):
+                continue
+            pl = int(P["ploidy"][par])
+            g = st[par, :pl].tolist()
+            for x in range(P["n"]):
+                for gc in range(1, tau + 1):
+                    try:
+                        v = float(prior.gamete_allele_log_pmf(gc, tau, g.count(x), pl, lam))
+                    except (AssertionError, ValueError, ZeroDivisionError):
+                        continue
+                    if math.isnan(v):
+                        return True
+        return False
 
     def vec_tag(v):
         if isinstance(v, str):
@@ -344,9 +375,12 @@ def run(tier, replay=None):
                 if len(parts) == 2 and parts[0] != parts[1]:
                     chk.disagreement("model: Gibbs with the code-form trio functions != with the specification-level ones", case)
                 if impl == "err":
-                    chk.violation("gibbs_probabilities raises (NaN inside trio_allele_log_pmf: negative 'available' count for a gamete "
-                                  "that exceeds the parental copies) for a candidate state of positive joint probability",
-                                  case, "C18/gibbs/nan-assert")
+                    if model != "err":
+                        if nan_in_allele_pmf(P, st, t):
+                            chk.violation("gibbs_probabilities raises: gamete_allele_log_pmf returns NaN (negative 'available' count for a "
+                                          "gamete that exceeds the parental copies) for a candidate state", case, "C18/gibbs/nan-assert")
+                        else:
+                            chk.violation("gibbs_probabilities raises on a well-formed pedigree state", case, "C18/gibbs/raises")
                     continue
                 # ---- oracle: exact full conditional of the joint (implementation's own pmf and likelihood)
                 ws = []
